@@ -61,6 +61,14 @@ NAMsg(n, ts, bad, fl, p) ==
   [t |-> "NA", c |-> 0, n |-> n, d |-> 0, ts |-> ts, fee |-> 0, signer |-> "-",
    bad |-> bad, fund |-> "-", fields |-> fl, peer |-> p]
 
+\* not a message: the environment (zombie pruning) puts a channel that is not in the graph into the
+\* zombie index and records the node keys that may resurrect it ("both", or only "n1" / "n2")
+ZOMsg(c, keys) ==
+  [t |-> "ZO", c |-> c, n |-> 0, d |-> 0, ts |-> 0, fee |-> 0, signer |-> keys,
+   bad |-> "-", fund |-> "-", fields |-> "-", peer |-> "-"]
+ZOUniverse == {ZOMsg(c, k) : c \in Chans, k \in {"both", "n1", "n2"}}
+ZKeys(mode) == CASE mode = "both" -> {"n1", "n2"} [] mode = "n1" -> {"n1"} [] mode = "n2" -> {"n2"}
+
 (* The message universe: valid messages and messages with ONE defect.      *)
 CAUniverse == {m \in {CAMsg(c, b, f, p) : c \in Chans, b \in CABad, f \in Funds, p \in Peers} :
                  m.bad = "none" \/ m.fund = "ok"}
@@ -89,9 +97,15 @@ CASigsValid(m) ==
     [] OTHER               -> {}                       \* a signed field or a key changed: digest/keys differ
 ChainMismatch(m) == m.bad \in {"chainhash", "wrongchain"}
 CUSigValid(m) == m.bad = "none" /\ m.signer = Own(m.d)
+\* consistent fields: max_htlc flag set, 0 < min <= max <= capacity (in millisatoshi).
+\* "capeq" is max = capacity exactly; "capplusN" is capacity + N msat (N = 1, 500, 999, 1000).
+\* "disabled" is a validly signed update with the disable bit set (consistent; a different content).
+CUFieldsOk(m) == m.fields \in {"ok", "capeq", "disabled"}
+\* content class of the stored policy besides the fee: 1 plain, 2 max_htlc = capacity, 3 disabled
+Mx(m) == CASE m.fields = "capeq" -> 2 [] m.fields = "disabled" -> 3 [] OTHER -> 1
 NASigValid(m) == m.bad = "none"
 
-NoPol == [ts |-> 0, fee |-> 0]
+NoPol == [ts |-> 0, fee |-> 0, mx |-> 0]
 \* what is handed to Broadcast is the wire message; the peer it came from is not part of it
 Wire(m) == [m EXCEPT !.peer = "-"]
 
@@ -100,17 +114,19 @@ VARIABLES chans,    \* channels in the graph
           nodes,    \* Nodes -> timestamp of the stored node announcement, 0 = none
           stash,    \* Chans -> sequence of premature updates not yet replayed
           zombie,   \* zombie index (not the graph)
+          zkeys,    \* Chans -> the node keys ("n1", "n2") recorded with the zombie entry; {} = zero keys
           closed,   \* closed-scid index (not the graph)
           rejects,  \* reject cache: set of <<scid, peer>>
           relayed,  \* (wire) messages handed to the broadcast batch
           nmsg,     \* messages received so far (bounds model checking only)
           last      \* outcome of the last step: [kind, res]
 
-vars  == <<chans, pol, nodes, stash, zombie, closed, rejects, relayed, nmsg, last>>
+vars  == <<chans, pol, nodes, stash, zombie, zkeys, closed, rejects, relayed, nmsg, last>>
 Graph == <<chans, pol, nodes>>
 
 Init == /\ chans = {} /\ pol = [k \in Keys |-> NoPol] /\ nodes = [n \in Nodes |-> 0]
-        /\ stash = [c \in Chans |-> <<>>] /\ zombie = {} /\ closed = {} /\ rejects = {}
+        /\ stash = [c \in Chans |-> <<>>] /\ zombie = {} /\ zkeys = [c \in Chans |-> {}]
+        /\ closed = {} /\ rejects = {}
         /\ relayed = {} /\ nmsg = 0 /\ last = [kind |-> "Init", res |-> "-"]
 
 Out(kind, res) == last' = [kind |-> kind, res |-> res]
@@ -118,10 +134,10 @@ HasChan(n) == \E c \in chans : n \in Ends(c)
 
 \* nothing but the outcome changes
 Nop(kind, res) == /\ Out(kind, res)
-                  /\ UNCHANGED <<chans, pol, nodes, stash, zombie, closed, rejects, relayed>>
+                  /\ UNCHANGED <<chans, pol, nodes, stash, zombie, zkeys, closed, rejects, relayed>>
 \* rejected and remembered in the reject cache
 RejectCache(m, kind) == /\ Out(kind, "err") /\ rejects' = rejects \cup {<<m.c, m.peer>>}
-                        /\ UNCHANGED <<chans, pol, nodes, stash, zombie, closed, relayed>>
+                        /\ UNCHANGED <<chans, pol, nodes, stash, zombie, zkeys, closed, relayed>>
 
 (* handleChanAnnouncement *)
 RecvCA(m) ==
@@ -135,12 +151,13 @@ RecvCA(m) ==
             /\ Out("RejectFunding", "err")
             /\ rejects' = rejects \cup {<<m.c, m.peer>>}
             /\ zombie' = zombie \cup {m.c}
+            /\ zkeys' = [zkeys EXCEPT ![m.c] = {}]                  \* zero keys: can never be resurrected
             /\ closed' = IF m.fund = "spent" THEN closed \cup {m.c} ELSE closed
             /\ UNCHANGED <<chans, pol, nodes, stash, relayed>>
        ELSE /\ Out("ApplyCA", "ok")
             /\ chans' = chans \cup {m.c}
             /\ relayed' = relayed \cup {Wire(m)}
-            /\ UNCHANGED <<pol, nodes, stash, zombie, closed, rejects>>
+            /\ UNCHANGED <<pol, nodes, stash, zombie, zkeys, closed, rejects>>
 
 (* handleChanUpdate from the staleness check on, for a channel that is in  *)
 (* the graph; p is the policy table it reads and writes.                   *)
@@ -148,11 +165,11 @@ CUKnown(p, m) ==
   LET k == <<m.c, m.d>> IN
   IF p[k].ts # 0 /\ m.ts <= p[k].ts
     THEN [pol |-> p, kind |-> "DropStale", res |-> "ok", app |-> FALSE]
-  ELSE IF m.fields # "ok" \/ ~CUSigValid(m)
+  ELSE IF ~CUFieldsOk(m) \/ ~CUSigValid(m)
     THEN [pol |-> p, kind |-> "RejectCU", res |-> "err", app |-> FALSE]
-  ELSE IF p[k].ts # 0 /\ p[k].fee = m.fee
+  ELSE IF p[k].ts # 0 /\ p[k].fee = m.fee /\ p[k].mx = Mx(m)
     THEN [pol |-> p, kind |-> "DropKeepAlive", res |-> "ok", app |-> FALSE]
-  ELSE [pol |-> [p EXCEPT ![k] = [ts |-> m.ts, fee |-> m.fee]],
+  ELSE [pol |-> [p EXCEPT ![k] = [ts |-> m.ts, fee |-> m.fee, mx |-> Mx(m)]],
         kind |-> "ApplyCU", res |-> "ok", app |-> TRUE]
 
 \* a (re)queued update of a known channel, including the reject-cache gate of networkHandler
@@ -171,12 +188,22 @@ RecvCU(m) ==
             /\ Out(r.kind, r.res)
             /\ pol' = r.pol
             /\ relayed' = IF r.app THEN relayed \cup {Wire(m)} ELSE relayed
-            /\ UNCHANGED <<chans, nodes, stash, zombie, closed, rejects>>
-     ELSE IF m.c \in zombie THEN Nop("RejectZombie", "err")   \* zero-key zombie cannot be resurrected
+            /\ UNCHANGED <<chans, nodes, stash, zombie, zkeys, closed, rejects>>
+     ELSE IF m.c \in zombie
+       THEN \* processZombieUpdate: the key owning the update's direction must be recorded with the zombie
+            \* entry and the signature must verify under it (the fields are NOT looked at here); then the
+            \* entry is removed and the update waits for the channel announcement like any premature one
+            IF Own(m.d) \in zkeys[m.c] /\ CUSigValid(m)
+              THEN /\ Out("Resurrect", "pending")
+                   /\ zombie' = zombie \ {m.c}
+                   /\ zkeys' = [zkeys EXCEPT ![m.c] = {}]
+                   /\ stash' = [stash EXCEPT ![m.c] = Append(@, m)]
+                   /\ UNCHANGED <<chans, pol, nodes, closed, rejects, relayed>>
+              ELSE Nop("RejectZombie", "err")
      ELSE \* unknown channel: kept WITHOUT validation; the caller's future stays open
           /\ Out("Stash", "pending")
           /\ stash' = [stash EXCEPT ![m.c] = Append(@, m)]
-          /\ UNCHANGED <<chans, pol, nodes, zombie, closed, rejects, relayed>>
+          /\ UNCHANGED <<chans, pol, nodes, zombie, zkeys, closed, rejects, relayed>>
 
 (* handleNodeAnnouncement (node announcements never hit the reject cache)  *)
 RecvNA(m) ==
@@ -188,10 +215,23 @@ RecvNA(m) ==
      ELSE /\ Out("ApplyNA", "ok")
           /\ nodes' = [nodes EXCEPT ![m.n] = m.ts]
           /\ relayed' = relayed \cup {Wire(m)}
-          /\ UNCHANGED <<chans, pol, stash, zombie, closed, rejects>>
+          /\ UNCHANGED <<chans, pol, stash, zombie, zkeys, closed, rejects>>
 
 Recv(m) == /\ nmsg' = nmsg + 1
            /\ RecvCA(m) \/ RecvCU(m) \/ RecvNA(m)
+
+(* Environment: a channel that is not in the graph is put into the zombie  *)
+(* index with node keys recorded, as zombie pruning leaves it (both keys,   *)
+(* or one with strict pruning).                                             *)
+Zombify(c, mode) ==
+  /\ c \notin chans \cup zombie
+  /\ zombie' = zombie \cup {c}
+  /\ zkeys' = [zkeys EXCEPT ![c] = ZKeys(mode)]
+  /\ Out("Zombify", "-")
+  /\ nmsg' = nmsg + 1
+  /\ UNCHANGED <<chans, pol, nodes, stash, closed, rejects, relayed>>
+\* one entry of a schedule
+Step(m) == IF m.t = "ZO" THEN Zombify(m.c, m.signer) ELSE Recv(m)
 
 RemoveAt(s, i) == [j \in 1..(Len(s) - 1) |-> IF j < i THEN s[j] ELSE s[j + 1]]
 
@@ -205,9 +245,10 @@ ReplayOne(c, i) ==
      /\ pol' = r.pol
      /\ relayed' = IF r.app THEN relayed \cup {Wire(m)} ELSE relayed
      /\ stash' = [stash EXCEPT ![c] = RemoveAt(@, i)]
-  /\ UNCHANGED <<chans, nodes, zombie, closed, rejects, nmsg>>
+  /\ UNCHANGED <<chans, nodes, zombie, zkeys, closed, rejects, nmsg>>
 
 Next == \/ \E m \in Universe : Recv(m)
+        \/ \E z \in ZOUniverse : Zombify(z.c, z.signer)
         \/ \E c \in Chans : \E i \in 1..Len(stash[c]) : ReplayOne(c, i)
 
 Spec == Init /\ [][Next]_vars
@@ -223,14 +264,14 @@ AllowedCA(m) == m.t = "CA" /\ CASigsValid(m) = AllSigs /\ m.fund = "ok"
 AllowedCU(m) == /\ m.t = "CU" /\ m.c \in chans
                 /\ m.bad = "none" /\ m.signer = Own(m.d)
                 /\ m.ts > pol[<<m.c, m.d>>].ts
-                /\ m.fields = "ok"
+                /\ CUFieldsOk(m)
 \* "... only if signed by that node, newer, and the node has a known channel"
 AllowedNA(m) == m.t = "NA" /\ m.bad = "none" /\ m.ts > nodes[m.n] /\ HasChan(m.n)
 Allowed(m) == AllowedCA(m) \/ AllowedCU(m) \/ AllowedNA(m)
 
 EffectOf(m) ==
   CASE m.t = "CA" -> <<chans \cup {m.c}, pol, nodes>>
-    [] m.t = "CU" -> <<chans, [pol EXCEPT ![<<m.c, m.d>>] = [ts |-> m.ts, fee |-> m.fee]], nodes>>
+    [] m.t = "CU" -> <<chans, [pol EXCEPT ![<<m.c, m.d>>] = [ts |-> m.ts, fee |-> m.fee, mx |-> Mx(m)]], nodes>>
     [] m.t = "NA" -> <<chans, pol, [nodes EXCEPT ![m.n] = m.ts]>>
 
 \* "Anything else leaves the graph unchanged and is not relayed to peers."
@@ -252,13 +293,20 @@ PolicyHasChannel == \A k \in Keys : pol[k].ts > 0 => k[1] \in chans
 RelayedAuthentic ==
   \A m \in relayed :
      CASE m.t = "CA" -> AllowedCA(m) /\ m.c \in chans
-       [] m.t = "CU" -> /\ m.c \in chans /\ CUSigValid(m) /\ m.fields = "ok"
+       [] m.t = "CU" -> /\ m.c \in chans /\ CUSigValid(m) /\ CUFieldsOk(m)
                         /\ pol[<<m.c, m.d>>].ts >= m.ts /\ m.ts > 0
        [] m.t = "NA" -> NASigValid(m) /\ nodes[m.n] >= m.ts /\ m.ts > 0 /\ HasChan(m.n)
 
+\* a zombie entry disappears only through a fresh update signed by the node that owns the update's
+\* direction, whose key is recorded with the entry; that update is then waiting in the stash
+ZombieOnlyByOwner ==
+  [][\A c \in Chans : (c \in zombie /\ c \notin zombie') =>
+        /\ Len(stash'[c]) = Len(stash[c]) + 1
+        /\ LET m == stash'[c][Len(stash'[c])] IN
+             m.t = "CU" /\ m.c = c /\ m.ts > 0 /\ CUSigValid(m) /\ Own(m.d) \in zkeys[c]]_vars
 \* structure
 ZombieNotInGraph == zombie \cap chans = {}
-ClosedIsZombie   == closed \subseteq zombie
+ClosedIsZombie   == \A c \in closed : c \in zombie /\ zkeys[c] = {}
 StashOnlyUpdates == \A c \in Chans : \A i \in 1..Len(stash[c]) : stash[c][i].t = "CU" /\ stash[c][i].c = c
 TypeOK == /\ chans \subseteq Chans /\ zombie \subseteq Chans /\ closed \subseteq Chans
           /\ rejects \subseteq Chans \X Peers
